@@ -98,6 +98,7 @@ F = {
 }
 
 FIXED = [
+ ("C06", "17a6006", "F28 a failing iteration aborted the process when a lazy static or a thread-local that was still alive held a loom handle (loom::sync::Arc) or had a destructor performing a loom operation: the values are owned by the Execution and were dropped with it outside the scheduler state while the panic unwound out of Builder::check (second panic 'cannot access Loom execution state from outside a Loom model'); witnesses cfg unwind=1 tlsdtor=1 x=1 | T0: tls 0; panic and the harness scenarios native:lazy_arc_panic, native:tls_arc_panic (first reported by the sub-agent that produced seed C06f as a side observation on the unmodified tree)"),
  ("C04", "c6f0cab", "F26 Notify::notify joined the notifier's causality into every thread whose pending operation named the Notify, also into another thread preempted inside its own notify(): a data race between two notifying threads was not reported on that path; witness cfg n=1 c=1 | T0: spawn 1; cwr 0 5; nnotify 0; join 1 | T1: nnotify 0; crd 0 on the path stored in gen/paths/f26_two_notifiers.json (found by the proof attempt Race2: kernel-checked witness Race2.Finding.missed_race)"),
  ("C08", "c6f0cab", "F26 a notifier acquired another notifier's causality (a notification orders something only for the waiter); same witness"),
  ("C07", "b682426", "F9a a thread pending on try_lock/try_read/try_write was blocked when another thread acquired the lock: false deadlock when the holder waits for it; witness cfg m=1 | T0: spawn 1; lock 0; join 1; unlock 0 | T1: trylock 0; ifeq 1 v:1 1; unlock 0"),
